@@ -75,6 +75,7 @@ ASSUMPTIONS = [
 TRUSTED_EXTRA = ["harness/exprtrans.py class RowFn: the ROW-wise reading of column-wise pandas code (rules at the top of the file)",
                  "pandas boolean-mask selection, Series.replace, concat, itertuples, to_csv as modelled in Model/Export.lean",
                  "harness/colread_c20ci.py: the COLUMN-wise reading of the confidence-limit block of segments2vcf (rules at the top of the file)",
+                 "harness/segread_c20.py: the ROW-wise reading of tabio.seg.format_seg (assign / rename / reindex over a typed row), of the comprehension of create_chrom_ids, of write_seg's chrom_ids test and export_seg's default (rules at the top of the file)",
                  "harness parsing of the VCF / BED / SEG / TSV text into fields (split on tab, ';', '=', ':')",
                  "tabio.read (tab format) on sorted finite input is the identity (checked per case by the adapter)",
                  "argparse: an option string reaches the command function as the attribute the parser declares"]
@@ -337,6 +338,33 @@ def _segfile_case(rng, via=None):
     return {"op": "export_seg", "tag": (via + "-" if via else "") + ("enum" if i["enumerate"] else "plain") + feat, "in": i}
 
 
+def _segsrc_case(rng, t):
+    """export_seg cases aimed at the source-tied branches: a first sample whose chromosomes already are their numbers
+    (empty mapping: `if chrom_ids` is false although the option is on), shifted numeric names (every key is another
+    key's number), a later sample with chromosomes the first does not have, probes column present / absent per sample"""
+    kind = t % 4
+    firsts = [["1", "2", "3"], ["2", "3", "4"], ["1", "3", "X"], ["chr1", "chr2", "chrX"]][kind]
+    others = [["1", "4", "X"], ["1", "2", "5"], ["2", "3", "Y"], ["chr2", "chr7", "chrY"]][kind]
+    k = 1 + (t // 4) % 3
+    samples = []
+    for j in range(k):
+        pool = firsts if j == 0 else others
+        rows = []
+        for c in (pool if j == 0 else rng.sample(pool, rng.randint(1, len(pool)))):
+            for _ in range(rng.randint(1, 2)):
+                s = rng.choice([0, rng.randint(0, 10 ** 6)])
+                rows.append([c, s, s + rng.randint(1, 10 ** 5), rng.choice(GENES), round(rng.uniform(-3, 2), 3),
+                             rng.randint(1, 300), rng.randint(0, 5)])
+        rows = _sorted(rows)
+        samples.append({"id": f"Q{j}", "has_probes": (t + j) % 3 != 0,
+                        "rows": [_enc_seg(r) for r in rows], "log2_f": [r[4] for r in rows]})
+    enum = t % 8 < 6
+    i = {"samples": samples, "enumerate": enum, "argstyle": ["pos", "kw", "implicit"][t % 3], "ftuple": t % 5 == 0}
+    return {"op": "export_seg", "tag": "segsrc-" + ("enum" if enum else "plain") + "-" +
+            ["identity", "shifted", "partial", "chr"][kind] + ("-noprobes" if any(not sm["has_probes"] for sm in samples) else ""),
+            "in": i}
+
+
 def _bins(rng, n, style, via):
     pre = "chr" if style == "chr" else ""
     rows = []
@@ -560,6 +588,11 @@ def gen_cases(rng, tier):
     crng = _random.Random(f"c20ci-{tier}-{rng.getstate()[1][0]}")  # draws nothing from rng
     for t in range({"quick": 90, "thorough": 600, "search": 150}[tier]):
         cases.append(_cicase(crng, via="argv" if t % 6 == 5 else None, turn=t))
+    # round 5b: the branches of format_seg / create_chrom_ids / write_seg that Props/C20SegSrc.lean ties to the source
+    # text, each reached on purpose (own generator stream)
+    srng = _random.Random(f"c20segsrc-{tier}-{rng.getstate()[1][0]}")
+    for t in range({"quick": 24, "thorough": 96, "search": 24}[tier]):
+        cases.append(_segsrc_case(srng, t))
     # the command line: same parser and command functions in this process (cheap, so every spelling of every option
     # gets its turn) ...
     a = {"quick": 48, "thorough": 240, "search": 48}[tier]
